@@ -729,8 +729,10 @@ func checkAndPropagateArgsForUnionWithReturnT(
 			return nil, err
 		}
 
+		// the method types are the entries of the frame table themselves:
+		// the result is accumulated on copies, never on them
 		if returnT == nil {
-			returnT = methodTs[idx]
+			returnT = methodTs[idx].DeepCopy()
 
 			continue
 		}
@@ -742,9 +744,10 @@ func checkAndPropagateArgsForUnionWithReturnT(
 		}
 
 		if methodTs[idx].IsUnionType() {
-			methodTs[idx].AppendVariant(*returnT)
+			unionT := methodTs[idx].DeepCopy()
+			unionT.AppendVariant(*returnT)
 
-			returnT = base.MakeUnion(methodTs[idx].GetVariants())
+			returnT = base.MakeUnion(unionT.GetVariants())
 
 			continue
 		}
